@@ -4,7 +4,7 @@ set -u
 PATCH="$1"; ID="$2"; TIER="${3:-quick}"
 D=$(mktemp -d /dev/shm/verif_mut.XXXXXX)
 trap 'rm -rf "$D"' EXIT
-git -C /repo archive HEAD | tar -x -C "$D"
+git -C /repo archive ${SEED_BASE:-HEAD} | tar -x -C "$D"
 ( cd "$D" && git init -q . 2>/dev/null >/dev/null; git -C "$D" apply --whitespace=nowarn "$PATCH" ) || { echo "PATCH DOES NOT APPLY"; exit 3; }
-VERIF_REPO="$D" /verif/check "$ID" --tier "$TIER" 2>&1 | grep -v conda | grep -E "^(VIOLATION|KNOWN|HARNESS|\[C)|site=" | head -${LINES_MAX:-12}
+VERIF_OUT="$D/.verif_out" VERIF_REPO="$D" /verif/check "$ID" --tier "$TIER" 2>&1 | grep -v conda | grep -E "^(VIOLATION|KNOWN|HARNESS|\[C)|site=" | head -${LINES_MAX:-12}
 echo "rc=${PIPESTATUS[0]}"
